@@ -627,6 +627,125 @@ impl Drv for TmClient {
     }
 }
 
+// ---------------------------------------------------------------- N2C instantiations of the generic agents
+pub struct HsClientC(mp::handshake::N2CClient);
+impl Drv for HsClientC {
+    const P: usize = HSC;
+    const CLIENT: bool = true;
+    const NAME: &'static str = "handshake-n2c.client";
+    fn new(ch: pallas_network::multiplexer::AgentChannel) -> Self {
+        HsClientC(mp::handshake::Client::new(ch))
+    }
+    fn class(&self) -> u8 {
+        match self.0.state() {
+            mp::handshake::State::Propose => 0,
+            mp::handshake::State::Confirm => 1,
+            mp::handshake::State::Done => 2,
+        }
+    }
+    raw_impl!(HsC);
+    async fn hl_send(&mut self, k: u8, m: M1) -> R {
+        match (k, m) {
+            (0, M1::HsC(mp::handshake::Message::Propose(t))) => r(self.0.send_propose(t).await),
+            _ => None,
+        }
+    }
+    async fn hl_recv(&mut self) -> R {
+        r(self.0.recv_while_confirm().await)
+    }
+}
+pub struct HsServerC(mp::handshake::N2CServer);
+impl Drv for HsServerC {
+    const P: usize = HSC;
+    const CLIENT: bool = false;
+    const NAME: &'static str = "handshake-n2c.server";
+    fn new(ch: pallas_network::multiplexer::AgentChannel) -> Self {
+        HsServerC(mp::handshake::Server::new(ch))
+    }
+    fn class(&self) -> u8 {
+        match self.0.state() {
+            mp::handshake::State::Propose => 0,
+            mp::handshake::State::Confirm => 1,
+            mp::handshake::State::Done => 2,
+        }
+    }
+    raw_impl!(HsC);
+    async fn hl_send(&mut self, k: u8, m: M1) -> R {
+        match (k, m) {
+            (1, M1::HsC(mp::handshake::Message::Accept(v, d))) => r(self.0.accept_version(v, d).await),
+            (2, M1::HsC(mp::handshake::Message::Refuse(x))) => r(self.0.refuse(x).await),
+            _ => None,
+        }
+    }
+    async fn hl_recv(&mut self) -> R {
+        r(self.0.receive_proposed_versions().await)
+    }
+}
+pub struct CsClientC(mp::chainsync::N2CClient);
+impl Drv for CsClientC {
+    const P: usize = CSB;
+    const CLIENT: bool = true;
+    const NAME: &'static str = "chainsync-n2c.client";
+    fn new(ch: pallas_network::multiplexer::AgentChannel) -> Self {
+        CsClientC(mp::chainsync::Client::new(ch))
+    }
+    fn class(&self) -> u8 {
+        cs_class(self.0.state())
+    }
+    raw_impl!(CsB);
+    async fn hl_send(&mut self, k: u8, m: M1) -> R {
+        match (k, m) {
+            (0, _) => r(self.0.send_request_next().await),
+            (4, M1::CsB(mp::chainsync::Message::FindIntersect(p))) => r(self.0.send_find_intersect(p).await),
+            (7, _) => r(self.0.send_done().await),
+            _ => None,
+        }
+    }
+    async fn hl_recv(&mut self) -> R {
+        match self.0.state() {
+            mp::chainsync::State::CanAwait => r(self.0.recv_while_can_await().await),
+            mp::chainsync::State::MustReply => r(self.0.recv_while_must_reply().await),
+            mp::chainsync::State::Intersect => r(self.0.recv_intersect_response().await),
+            _ => None,
+        }
+    }
+}
+pub struct CsServerC(mp::chainsync::N2CServer);
+impl Drv for CsServerC {
+    const P: usize = CSB;
+    const CLIENT: bool = false;
+    const NAME: &'static str = "chainsync-n2c.server";
+    fn new(ch: pallas_network::multiplexer::AgentChannel) -> Self {
+        CsServerC(mp::chainsync::Server::new(ch))
+    }
+    fn class(&self) -> u8 {
+        cs_class(self.0.state())
+    }
+    async fn raw_send(&mut self, m: &M1) -> R {
+        match m {
+            M1::CsB(x) => r(self.0.send_message(x).await),
+            _ => None,
+        }
+    }
+    async fn raw_recv(&mut self) -> Option<Result<M1, String>> {
+        None
+    }
+    async fn hl_send(&mut self, k: u8, m: M1) -> R {
+        use mp::chainsync::Message as M;
+        match (k, m) {
+            (1, _) => r(self.0.send_await_reply().await),
+            (2, M1::CsB(M::RollForward(c, t))) => r(self.0.send_roll_forward(c, t).await),
+            (3, M1::CsB(M::RollBackward(p, t))) => r(self.0.send_roll_backward(p, t).await),
+            (5, M1::CsB(M::IntersectFound(p, t))) => r(self.0.send_intersect_found(p, t).await),
+            (6, M1::CsB(M::IntersectNotFound(t))) => r(self.0.send_intersect_not_found(t).await),
+            _ => None,
+        }
+    }
+    async fn hl_recv(&mut self) -> R {
+        r(self.0.recv_while_idle().await)
+    }
+}
+
 // ---------------------------------------------------------------- the conversation
 
 pub struct Conv<D: Drv>(pub std::marker::PhantomData<D>);
@@ -721,7 +840,7 @@ async fn converse<D: Drv>(sh: Sh, mut d: D, mut peer: ChannelBuffer, known: std:
                 // send first, then receive; if the API is private nothing may be left on the wire, so ask first
                 if k == 0 {
                     // cheap capability probe: agents with private recv_message return None without touching the wire
-                    if matches!(D::NAME, "chainsync.server" | "localtxsubmission.client" | "localtxsubmission.server") {
+                    if matches!(D::NAME, "chainsync.server" | "chainsync-n2c.server" | "localtxsubmission.client" | "localtxsubmission.server") {
                         break;
                     }
                 }
@@ -942,12 +1061,16 @@ pub fn def() -> CheckDef {
             b::<LtsClient>(1500, 60_000),
             b::<LtsServer>(1500, 60_000),
             b::<TmClient>(2000, 100_000),
+            b::<HsClientC>(800, 40_000),
+            b::<HsServerC>(800, 40_000),
+            b::<CsClientC>(1200, 60_000),
+            b::<CsServerC>(1200, 60_000),
         ],
-        rule: "a real agent (17 protocol x role agents of the original stack) on one of two real Plexers converses over seeded pipes with a simulated peer for up to 40 steps; at every state reached: every message variant is offered to send_message (verdict must be Ok exactly when the role holds agency and the spec has the transition, an accepted message must reach the peer unchanged, the state must not move) and every variant is delivered to recv_message (verdict Ok exactly when the peer may send it); then the conversation advances through the high-level method for a legal move (state must equal the spec successor) or, one time in six, an illegal local move / illegal peer message (must be rejected with the state unchanged); abstract states = (agent, state, message, direction) triples judged; non-trivial = completed conversation with a non-neutral choice; distinct = distinct traces",
+        rule: "a real agent (21 protocol x role agents of the original stack, N2N and N2C) on one of two real Plexers converses over seeded pipes with a simulated peer for up to 40 steps; at every state reached: every message variant is offered to send_message (verdict must be Ok exactly when the role holds agency and the spec has the transition, an accepted message must reach the peer unchanged, the state must not move) and every variant is delivered to recv_message (verdict Ok exactly when the peer may send it); then the conversation advances through the high-level method for a legal move (state must equal the spec successor) or, one time in six, an illegal local move / illegal peer message (must be rejected with the state unchanged); abstract states = (agent, state, message, direction) triples judged; non-trivial = completed conversation with a non-neutral choice; distinct = distinct traces",
         real: vec!["pallas_network::miniprotocols::{handshake, chainsync, blockfetch, txsubmission, keepalive, peersharing, localstate, localtxsubmission, txmonitor}::{Client, Server}", "Plexer/Muxer/Demuxer/ChannelBuffer", "all message codecs"],
         stub: vec!["remote peer (raw ChannelBuffer driven by the spec automaton, one move in six Byzantine)", "socket (SimPipe)"],
         assumptions: vec![
-            "N2C variants of handshake/chainsync share the generic agent code with the N2N ones and are not driven separately; tx-monitor has no server agent",
+            "tx-monitor has no server agent; local-msg-submission / local-msg-notification are not among the protocols the statement lists",
             "agents whose send_message/recv_message are private (chainsync server recv, local-tx-submission) are judged through their high-level methods only",
             "tx-monitor MsgAwaitAcquire/MsgAcquire in Acquired are don't-care (shared wire encoding)",
         ],
